@@ -4,6 +4,7 @@ from concurrent.futures import ThreadPoolExecutor
 THEOREMS = ["C14_transparent", "C14_one_stream_per_output", "C14_exporter_outputs", "C14_nonvacuous"]
 VARIANT = "plain"
 
+EXTRA_PROPERTY_FILES = ("Properties_writers",)   # the bodies of the output writers' functions as they are now (translator/writers.py) against what the model was written after
 def gen_data(rng, kind, n):
     if kind == "zeros": return ("rep", 0x00, n)
     if kind == "text": return ("hex", bytes(rng.choice(b"abcdefgh ") for _ in range(n)))
